@@ -57,6 +57,25 @@ class FakeNpLinalg:
         return eig(a)
 
     @staticmethod
+    def qr(a, mode='reduced'):
+        if mode not in ('reduced', 'complete'):
+            raise AnalysisError(f'np.linalg.qr mode {mode!r} has no model')
+        return qr(a, mode='economic' if mode == 'reduced' else 'full')
+
+    @staticmethod
+    def eigh(a, *x, **k):
+        return eigh(a)
+
+    @staticmethod
+    def lstsq(a, b, rcond=None):
+        return lstsq(a, b)
+
+    @staticmethod
+    def pinv(a, *x, **k):
+        a = as_arr(a)
+        return Arr([a.shape[1], a.shape[0]], [a.legs[1], a.legs[0]], a.dt, None, {}, 'pinv')
+
+    @staticmethod
     def inv(a):
         a = as_arr(a)
         if a.ndim != 2 or not sz_eq(a.shape[0], a.shape[1]):
@@ -331,6 +350,20 @@ class FakeNumpy:
     @staticmethod
     def floor(a):
         return math.floor(a)
+
+    @staticmethod
+    def result_type(*xs):
+        ds = []
+        for x in xs:
+            if isinstance(x, Arr):
+                ds.append(x.dt)
+            elif isinstance(x, A.DType):
+                ds.append(x.cls)
+            elif x is complex or isinstance(x, complex):
+                ds.append('complex')
+            else:
+                ds.append('real')
+        return A.DType(A.join_dtype(*ds))
 
     @staticmethod
     def iscomplexobj(x):
